@@ -218,6 +218,13 @@ def plan(case, wide=False):
 
 
 # ------------------------------------------------------------------ running statements on the real engine
+def _wd(ctx):
+    """scratch directory of the sub-model inside the (parent's) work directory"""
+    d = os.path.join(ctx.work, "nameres")
+    os.makedirs(d, exist_ok=True)
+    return d
+
+
 def run_statements(ctx, stmts, tag, nproc=4):
     """stmts: [{sql, arity, tables}] -> [{k: rows|err|panic|hang, rows|msg, arity}] (two passes: the second fixes the arity)."""
     def go(batch, name):
@@ -226,16 +233,16 @@ def run_statements(ctx, stmts, tag, nproc=4):
             return outs
         n = max(1, min(nproc, len(batch) // 40 + 1))
         chunks = [list(range(i, len(batch), n)) for i in range(n)]
-        cfgp = os.path.join(ctx.work, f"{name}.cfg.json")
+        cfgp = os.path.join(_wd(ctx), f"{name}.cfg.json")
         with open(cfgp, "w") as f:
             json.dump([{"name": "mem", "layout": "mem", "batches": 1}], f)
 
         def one(ci):
             idx = chunks[ci]
-            inp = os.path.join(ctx.work, f"{name}.{ci}.in.ndjson")
-            outp = os.path.join(ctx.work, f"{name}.{ci}.out.ndjson")
+            inp = os.path.join(_wd(ctx), f"{name}.{ci}.in.ndjson")
+            outp = os.path.join(_wd(ctx), f"{name}.{ci}.out.ndjson")
             vlib.write_ndjson(inp, [{"id": i, "tables": batch[i]["tables"], "sql": batch[i]["sql"], "out_types": ["int"] * batch[i]["arity"]} for i in idx])
-            vlib.qev(["sqlrun", inp, cfgp, outp, ctx.work], timeout=3000)
+            vlib.qev(["sqlrun", inp, cfgp, outp, _wd(ctx)], timeout=3000)
             res = vlib.read_ndjson(outp)
             if len(res) != len(idx):
                 raise vlib.ToolError(f"sqlrun answered {len(res)} of {len(idx)} statements")
@@ -604,7 +611,7 @@ def tlc_cases(ctx, tier, mut="none", invariants=None, workers=8, timeout=2400):
     if mut == "none" and invariants is None:
         cfg = f"NameRes_{tier}.cfg"
     else:
-        cfg = os.path.join(ctx.work, f"NameRes_{tier}_{mut}.cfg")
+        cfg = os.path.join(_wd(ctx), f"NameRes_{tier}_{mut}.cfg")
         with open(cfg, "w") as f:
             f.write(f'CONSTANTS Tier = "{tier}"\n          Mut = "{mut}"\nINIT Init\nNEXT Next\n')
             for inv in (invariants or ["Laws", "Emit"]):
@@ -720,7 +727,7 @@ def random_cfgs(seed, n):
 
 def judge_trace(ctx, recs, name, account=True):
     """NameResTrace.tla judges every record in one TLC run -> [(index, reject info)], TlcResult"""
-    path = os.path.join(ctx.work, f"{name}.ndjson")
+    path = os.path.join(_wd(ctx), f"{name}.ndjson")
     vlib.write_ndjson(path, recs)
     res = vlib.run_tlc("NameResTrace", "NameResTrace.cfg", workers=1, timeout=3000, env={"TRACE": path}, deque=True, tag=f"{ctx.pid}-{name}")
     judged = [r for k, r in res.prints if k == "JUDGED"]
